@@ -14,6 +14,8 @@ pub enum Expr {
     Bin(char, Box<Expr>, Box<Expr>),
     /// uninterpreted function applied to network variables
     Call(String, Vec<usize>),
+    /// uninterpreted function applied to literals (variable, negated?)
+    CallLit(String, Vec<(usize, bool)>),
 }
 
 #[derive(Clone, Copy, Debug, PartialEq, Eq, Hash, PartialOrd, Ord, serde::Serialize, serde::Deserialize)]
@@ -71,6 +73,10 @@ impl Expr {
                     format!("{}({})", name, a.join(", "))
                 }
             }
+            Expr::CallLit(name, args) => {
+                let a: Vec<String> = args.iter().map(|(i, neg)| if *neg { format!("!{}", vars[*i]) } else { vars[*i].clone() }).collect();
+                format!("{}({})", name, a.join(", "))
+            }
         }
     }
     fn render_atom(&self, vars: &[String]) -> String {
@@ -91,6 +97,9 @@ impl Expr {
             Expr::Call(n, a) => {
                 out.insert(n.clone(), a.len());
             }
+            Expr::CallLit(n, a) => {
+                out.insert(n.clone(), a.len());
+            }
         }
     }
     pub fn support(&self, out: &mut Vec<usize>) {
@@ -108,6 +117,13 @@ impl Expr {
             }
             Expr::Call(_, a) => {
                 for i in a {
+                    if !out.contains(i) {
+                        out.push(*i)
+                    }
+                }
+            }
+            Expr::CallLit(_, a) => {
+                for (i, _) in a {
                     if !out.contains(i) {
                         out.push(*i)
                     }
@@ -136,6 +152,15 @@ impl Expr {
                 let mut idx = 0usize;
                 for (k, v) in args.iter().enumerate() {
                     if state >> v & 1 == 1 {
+                        idx |= 1 << k;
+                    }
+                }
+                interp.explicit[name][idx]
+            }
+            Expr::CallLit(name, args) => {
+                let mut idx = 0usize;
+                for (k, (v, neg)) in args.iter().enumerate() {
+                    if (state >> v & 1 == 1) != *neg {
                         idx |= 1 << k;
                     }
                 }
